@@ -22,6 +22,17 @@ use vh::*;
 // C15: LinesCodec on a contiguous buffer
 // ------------------------------------------------------------------------------------------------
 
+thread_local! {
+    /// `prop=Cxx` in a case header: the oracle failures of that case are reported under that property
+    /// (the glue cases of C15 run `LinesCodec` through the `Framed` ops of C13 / C14)
+    static PROP_OVERRIDE: std::cell::Cell<Option<&'static str>> = const { std::cell::Cell::new(None) };
+}
+
+fn t3x(rep: &mut Report, prop: &str, msg: &str) {
+    let p = PROP_OVERRIDE.with(|o| o.get()).unwrap_or(prop);
+    rep.t3(p, msg);
+}
+
 /// alphabet of the exhaustive enumeration: `a`, CR, LF, the two bytes of `é`, and an invalid byte
 const LINES_ALPHABET: [u8; 6] = [b'a', b'\r', b'\n', 0xC3, 0xA9, 0xFF];
 
@@ -143,7 +154,7 @@ fn lines_run(bytes: &[u8], rep: &mut Report) -> String {
             Ok(Some(s)) => Some(LineItem::Ok(s.into_bytes())),
             Err(e) => {
                 if e.kind() != std::io::ErrorKind::InvalidData {
-                    rep.t3("C15", &format!("decode error of kind {:?}, expected InvalidData", e.kind()));
+                    t3x(rep, "C15", &format!("decode error of kind {:?}, expected InvalidData", e.kind()));
                 }
                 Some(LineItem::Err)
             }
@@ -176,7 +187,7 @@ fn lines_run(bytes: &[u8], rep: &mut Report) -> String {
     all.extend(eof.iter().cloned());
     let want = lines_reference(bytes);
     if all != want || spin {
-        rep.t3(
+        t3x(rep, 
             "C15",
             &format!("LinesCodec on {} yields {}{} but the reference splitter says {}", hex(bytes), item_list(&all), if spin { " (no end)" } else { "" }, item_list(&want)),
         );
@@ -190,13 +201,13 @@ fn lines_encode_all(items: &[String], rep: &mut Report) -> BytesMut {
     let mut want: Vec<u8> = vec![];
     for it in items {
         if let Err(e) = codec.encode(it.as_str(), &mut dst) {
-            rep.t3("C15", &format!("encode failed: {e}"));
+            t3x(rep, "C15", &format!("encode failed: {e}"));
         }
         want.extend_from_slice(it.as_bytes());
         want.push(b'\n');
     }
     if dst[..] != want[..] {
-        rep.t3("C15", &format!("encode of {:?} gives {} expected item+LF each: {}", items, hex(&dst), hex(&want)));
+        t3x(rep, "C15", &format!("encode of {:?} gives {} expected item+LF each: {}", items, hex(&dst), hex(&want)));
     }
     dst
 }
@@ -255,16 +266,16 @@ fn lines_chunks(pieces: &[Vec<u8>], direct: bool, rep: &mut Report) -> String {
     });
     match r {
         Err(_) => {
-            rep.t3("C15", &format!("LinesCodec panicked on {what}"));
+            t3x(rep, "C15", &format!("LinesCodec panicked on {what}"));
             "panic".into()
         }
         Ok((o, all, spin, bad_kind)) => {
             let want = lines_reference(&whole);
             if all != want || spin {
-                rep.t3("C15", &format!("one LinesCodec instance fed in pieces ({what}) yields {}{} but the reference splitter says {}", item_list(&all), if spin { " (no end)" } else { "" }, item_list(&want)));
+                t3x(rep, "C15", &format!("one LinesCodec instance fed in pieces ({what}) yields {}{} but the reference splitter says {}", item_list(&all), if spin { " (no end)" } else { "" }, item_list(&want)));
             }
             if bad_kind {
-                rep.t3("C15", &format!("decode error of a kind other than InvalidData on {what}"));
+                t3x(rep, "C15", &format!("decode error of a kind other than InvalidData on {what}"));
             }
             o
         }
@@ -305,13 +316,13 @@ fn lines_framed(tokens: &[Option<Vec<u8>>], style: u8, rep: &mut Report) -> Stri
                     let complete = lines_reference(&d[..upto]).len();
                     let yielded = outs.iter().filter(|o: &&Out| o.is_frame()).count();
                     if yielded < complete {
-                        rep.t3("C15", &format!("LinesCodec under Framed, transport script {shown}: the stream answered Pending with {yielded} of the {complete} complete lines of the {} bytes delivered so far yielded (a buffered line is held back until the transport answers again)", d.len()));
+                        t3x(rep, "C15", &format!("LinesCodec under Framed, transport script {shown}: the stream answered Pending with {yielded} of the {complete} complete lines of the {} bytes delivered so far yielded (a buffered line is held back until the transport answers again)", d.len()));
                     }
                 }
                 outs.push(o)
             }
             Err(_) => {
-                rep.t3("C15", &format!("Framed<_, LinesCodec> panicked on {shown}"));
+                t3x(rep, "C15", &format!("Framed<_, LinesCodec> panicked on {shown}"));
                 return "panic".into();
             }
         }
@@ -323,7 +334,7 @@ fn lines_framed(tokens: &[Option<Vec<u8>>], style: u8, rep: &mut Report) -> Stri
     }
     let pend = outs.iter().filter(|o| **o == Out::Pending).count();
     if frames != want || pend != n_pending || outs.iter().any(|o| matches!(o, Out::IoErr(_))) {
-        rep.t3("C15", &format!("LinesCodec under Framed, transport script {shown} then end of file: the stream yields [{}] but the reference splitter says [{}] (and {n_pending} Pending)", show_outs(&outs), show_outs(&want)));
+        t3x(rep, "C15", &format!("LinesCodec under Framed, transport script {shown} then end of file: the stream yields [{}] but the reference splitter says [{}] (and {n_pending} Pending)", show_outs(&outs), show_outs(&want)));
     }
     format!("[{}]", outs.iter().map(|o| o.show()).collect::<Vec<_>>().join(","))
 }
@@ -625,6 +636,57 @@ fn gen_c15(a: &Args, w: &mut dyn Write) {
             }
         }
     }
+    // (3c) glue: `LinesCodec` in a `Framed` whose codec is exchanged while something is buffered
+    // (`into_map_codec` lines -> lines, `replace_codec`, `into_parts`/`from_parts`, `into_map_io`):
+    // (a) lines encoded but not yet flushed survive and reach the transport in order; (b) complete lines
+    // already in the read buffer are still yielded although the transport is Pending afterwards.  The
+    // cases use the Framed ops of C13 / C14; their oracles report under C15 (`prop=C15`)
+    {
+        let mut g = 0usize;
+        let exchanges = ["swap lines map", "swap lines replace", "swap lines parts", "mapio"];
+        for ex in exchanges {
+            for (wi, ws) in ["", "wscript a:1 p", "wscript p a:2 a:100", "fscript p p"].iter().enumerate() {
+                for items in [&["61", "62"][..], &["-", "6162", "c3a9"], &["61", "-", "-"], &["n:5000", "n:4000", "62"]] {
+                    for at in 1..items.len() {
+                        g += 1;
+                        writeln!(w, "case lines-glue-w-{g} codec=lines prop=C15{}", if g % 3 == 0 { " init=parts" } else { "" }).unwrap();
+                        if !ws.is_empty() {
+                            writeln!(w, "{ws}").unwrap();
+                        }
+                        for (i, it) in items.iter().enumerate() {
+                            if i == at {
+                                if wi % 2 == 1 {
+                                    writeln!(w, "flush").unwrap(); // a partial / Pending flush first
+                                }
+                                writeln!(w, "{ex}").unwrap();
+                            }
+                            writeln!(w, "{} {it}", if (g + i) % 2 == 0 { "send" } else { "write" }).unwrap();
+                        }
+                        for op in ["flush", "flush", "flush", "close", "close"] {
+                            writeln!(w, "{op}").unwrap();
+                        }
+                    }
+                }
+            }
+            let units: [&[u8]; 4] = [b"a", b"\r", b"\n", "é".as_bytes()];
+            all_strings(&[0, 1, 2, 3], 4, &mut |ix| {
+                let st: Vec<u8> = ix.iter().flat_map(|&i| units[i as usize].iter().copied()).collect();
+                if st.iter().filter(|b| **b == b'\n').count() < 2 {
+                    return;
+                }
+                for before in 0..=2usize {
+                    g += 1;
+                    writeln!(w, "case lines-glue-r-{g} codec=lines prop=C15{}", rd_style(g)).unwrap();
+                    writeln!(w, "script d:{} p p d:7a0a p", hex(&st)).unwrap();
+                    if before > 0 {
+                        writeln!(w, "drain {before}").unwrap();
+                    }
+                    writeln!(w, "{ex}").unwrap();
+                    writeln!(w, "drain {}", st.len() + 6).unwrap();
+                }
+            });
+        }
+    }
     // (4) very long lines (1..20 KB: beyond memchr's word-at-a-time paths and the 8 KiB mark), with
     // CR LF / LF / no terminator / a trailing CR, multi-byte characters, a damaged byte somewhere
     let cases = if thorough { 400 } else { 40 };
@@ -695,7 +757,7 @@ fn step_c15(ws: &[&str], rep: &mut Report) -> Option<String> {
                     }
                     let tail = codec.decode_eof(&mut src);
                     if got != want || !matches!(tail, Ok(None)) {
-                        rep.t3("C15", &format!("round trip of {:?} gives {} then {:?}", items, item_list(&got), tail.map(|o| o.map(|s| hex(s.as_bytes())))));
+                        t3x(rep, "C15", &format!("round trip of {:?} gives {} then {:?}", items, item_list(&got), tail.map(|o| o.map(|s| hex(s.as_bytes())))));
                     }
                 }
                 format!("buf={} {}", hex(&buf), out)
@@ -1367,7 +1429,7 @@ impl Session {
         let (ready, full, empty) = (f.is_write_ready(), f.is_write_buf_full(), f.is_write_buf_empty());
         // T3: the three predicates against the real buffer
         if ready != (wb.len() < HW) || full != (wb.len() >= HW) || empty != wb.is_empty() {
-            rep.t3("C14", &format!("with {} bytes buffered: is_write_ready={ready} is_write_buf_full={full} is_write_buf_empty={empty}", wb.len()));
+            t3x(rep, "C14", &format!("with {} bytes buffered: is_write_ready={ready} is_write_buf_full={full} is_write_buf_empty={empty}", wb.len()));
         }
         let io = self.io.0.borrow();
         format!(
@@ -1388,7 +1450,7 @@ impl Session {
         let buf = self.read_buf();
         let empty = self.framed.as_ref().unwrap().is_read_buf_empty();
         if empty != buf.is_empty() {
-            rep.t3("C13", &format!("is_read_buf_empty={empty} with {} bytes in read_buf", buf.len()));
+            t3x(rep, "C13", &format!("is_read_buf_empty={empty} with {} bytes in read_buf", buf.len()));
         }
         let c = self.cnt.borrow();
         format!("rd={} dec={} eofc={} buf={} e={}", self.io.0.borrow().n_read, c.n_decode, c.n_decode_eof, show_bytes(&buf), empty as u8)
@@ -1460,21 +1522,21 @@ fn oracle_c13(s: &mut Session, rep: &mut Report) {
     let frames: Vec<(Out, Sel)> = s.outs.iter().zip(&s.out_sel).filter(|(o, _)| o.is_frame()).map(|(o, c)| (o.clone(), *c)).collect();
     let events: Vec<String> = s.outs.iter().filter(|o| !o.is_frame()).map(|o| o.show()).collect();
     if events != io.read_events {
-        rep.t3("C13", &format!("transport answered {:?} but the stream surfaced {:?}", io.read_events, events));
+        t3x(rep, "C13", &format!("transport answered {:?} but the stream surfaced {:?}", io.read_events, events));
     }
     if s.wake.0.load(Ordering::SeqCst) != io.wakes_requested {
-        rep.t3("C13", &format!("the transport registered {} wake-ups with the context it was given, the task's waker saw {}", io.wakes_requested, s.wake.0.load(Ordering::SeqCst)));
+        t3x(rep, "C13", &format!("the transport registered {} wake-ups with the context it was given, the task's waker saw {}", io.wakes_requested, s.wake.0.load(Ordering::SeqCst)));
     }
     if io.zero_room_reads > 0 {
-        rep.t3("C13", "poll_read was called with a buffer that has no room (spurious EOF)");
+        t3x(rep, "C13", "poll_read was called with a buffer that has no room (spurious EOF)");
     }
     // the end of the stream is the transport's to announce (a read that delivers nothing) — not a
     // flush, a shutdown of the write direction or a codec swap
     if s.cnt.borrow().n_decode_eof > 0 && !io.eof_answered {
-        rep.t3("C13", &format!("decode_eof was called ({} times) although the transport has not answered end of file: the read side was put at EOF by something else", s.cnt.borrow().n_decode_eof));
+        t3x(rep, "C13", &format!("decode_eof was called ({} times) although the transport has not answered end of file: the read side was put at EOF by something else", s.cnt.borrow().n_decode_eof));
     }
     if s.dead {
-        rep.t3("C13", "poll_next panicked or did not return (watchdog)");
+        t3x(rep, "C13", "poll_next panicked or did not return (watchdog)");
         return;
     }
     // after `None` only `None` — as long as the codec is not swapped (another codec may have
@@ -1485,7 +1547,7 @@ fn oracle_c13(s: &mut Session, rep: &mut Report) {
             if s.out_sel[idx] != s.out_sel[i] || s.swap_points.iter().any(|p| *p > i && *p <= idx) {
                 none_seen_at = None;
             } else if o.is_frame() && *o != Out::None {
-                rep.t3("C13", "an item after None");
+                t3x(rep, "C13", "an item after None");
                 break;
             }
         }
@@ -1516,10 +1578,10 @@ fn oracle_c13(s: &mut Session, rep: &mut Report) {
                     match o {
                         Out::Item(f) => {
                             if f.is_empty() {
-                                rep.t3("C13", "BytesCodec yielded an empty item");
+                                t3x(rep, "C13", "BytesCodec yielded an empty item");
                             }
                             if !src.starts_with(f) {
-                                rep.t3("C13", &format!("BytesCodec items [{}] are not a chunking of the stream: after {off} bytes the stream continues {} but the item is {}", show_outs(&all), show_bytes(&src[..f.len().min(src.len())]), show_bytes(f)));
+                                t3x(rep, "C13", &format!("BytesCodec items [{}] are not a chunking of the stream: after {off} bytes the stream continues {} but the item is {}", show_outs(&all), show_bytes(&src[..f.len().min(src.len())]), show_bytes(f)));
                                 ok = false;
                                 break;
                             }
@@ -1527,14 +1589,14 @@ fn oracle_c13(s: &mut Session, rep: &mut Report) {
                             off = d.len().saturating_sub(src.len());
                         }
                         Out::DecErr(k) => {
-                            rep.t3("C13", &format!("BytesCodec decode error {k:?}"));
+                            t3x(rep, "C13", &format!("BytesCodec decode error {k:?}"));
                             ok = false;
                             break;
                         }
                         _ => {
                             // None: everything delivered must have been yielded, and only at end of file
                             if !src.is_empty() || !at_eof {
-                                rep.t3("C13", &format!("BytesCodec: None after {off} of the {} bytes delivered (end of file answered: {at_eof}); items [{}]", d.len(), show_outs(&all)));
+                                t3x(rep, "C13", &format!("BytesCodec: None after {off} of the {} bytes delivered (end of file answered: {at_eof}); items [{}]", d.len(), show_outs(&all)));
                                 ok = false;
                                 break;
                             }
@@ -1549,7 +1611,7 @@ fn oracle_c13(s: &mut Session, rep: &mut Report) {
                     let mut w = conv_dec(codec.decode(&mut src));
                     if w == Out::None {
                         if !at_eof {
-                            rep.t3("C13", &format!("{} codec: Framed yielded [{}], more than the {} frames in the {} bytes delivered so far", sel.name(), show_outs(&all), i + k, d.len()));
+                            t3x(rep, "C13", &format!("{} codec: Framed yielded [{}], more than the {} frames in the {} bytes delivered so far", sel.name(), show_outs(&all), i + k, d.len()));
                             ok = false;
                             break;
                         }
@@ -1558,7 +1620,7 @@ fn oracle_c13(s: &mut Session, rep: &mut Report) {
                     if w != *o {
                         let mut want: Vec<Out> = all[..i + k].to_vec();
                         want.push(w);
-                        rep.t3("C13", &format!("{} codec: Framed yielded [{}] but decoding the whole stream {} with a fresh codec yields [{}] (output {})", sel.name(), show_outs(&all), show_bytes(d), show_outs(&want), i + k));
+                        t3x(rep, "C13", &format!("{} codec: Framed yielded [{}] but decoding the whole stream {} with a fresh codec yields [{}] (output {})", sel.name(), show_outs(&all), show_bytes(d), show_outs(&want), i + k));
                         ok = false;
                         break;
                     }
@@ -1586,7 +1648,7 @@ fn oracle_c13(s: &mut Session, rep: &mut Report) {
         let got: Vec<Out> = all.iter().filter(|o| **o != Out::None).cloned().collect();
         let none_seen = all.iter().any(|o| *o == Out::None);
         if !want.starts_with(&got) || (none_seen && got.len() != want.len()) {
-            rep.t3("C13", &format!("lines codec: Framed yielded [{}] but the reference splitter gives [{}] for the {} bytes delivered (end of file answered: {at_eof})", show_outs(&all), show_outs(&want), d.len()));
+            t3x(rep, "C13", &format!("lines codec: Framed yielded [{}] but the reference splitter gives [{}] for the {} bytes delivered (end of file answered: {at_eof})", show_outs(&all), show_outs(&want), d.len()));
         }
     }
     // no read while a complete frame is buffered
@@ -1605,7 +1667,7 @@ fn oracle_c13(s: &mut Session, rep: &mut Report) {
         let buffered = &d[o..sn.delivered];
         if !buffered.is_empty() && !sn.handed_over_only && sn.sels.iter().all(|c| can_decode(*c, buffered)) {
             let cur = sn.sels.last().copied().unwrap_or(s.sel);
-            rep.t3(
+            t3x(rep, 
                 "C13",
                 &format!(
                     "poll_read was called although the bytes already delivered hold a complete frame not yet yielded: {} frame outputs so far, {} codec, not yet consumed {} (a Pending or an I/O error is then surfaced before a frame that is ready)",
@@ -1699,10 +1761,10 @@ fn step_c13(ws: &[&str], s: &mut Session, rep: &mut Report) -> Option<String> {
                 let (rb1, wb1) = (s.read_buf(), s.write_buf());
                 // T3: a codec swap carries both buffers over
                 if rb0 != rb1 {
-                    rep.t3("C13", &format!("codec swap ({via}) changed read_buf from {} to {}", show_bytes(&rb0), show_bytes(&rb1)));
+                    t3x(rep, "C13", &format!("codec swap ({via}) changed read_buf from {} to {}", show_bytes(&rb0), show_bytes(&rb1)));
                 }
                 if wb0 != wb1 {
-                    rep.t3("C14", &format!("codec swap ({via}) changed write_buf from {} to {}", show_bytes(&wb0), show_bytes(&wb1)));
+                    t3x(rep, "C14", &format!("codec swap ({via}) changed write_buf from {} to {}", show_bytes(&wb0), show_bytes(&wb1)));
                 }
                 format!("ok {} {}", s.rd_counters(rep), s.wr_counters(rep))
             }
@@ -1725,11 +1787,11 @@ fn step_c13(ws: &[&str], s: &mut Session, rep: &mut Report) -> Option<String> {
                     }
                 });
                 if r.is_err() {
-                    rep.t3("C13", &format!("BytesCodec::decode panicked on a buffer of {n} bytes"));
+                    t3x(rep, "C13", &format!("BytesCodec::decode panicked on a buffer of {n} bytes"));
                     return Some("panic".into());
                 }
                 if frames.concat() != data || frames.iter().any(|f| f.is_empty()) {
-                    rep.t3("C13", &format!("BytesCodec::decode on a buffer of {n} bytes yields frames of {:?} bytes whose concatenation {} is not the buffer {}", frames.iter().map(|f| f.len()).collect::<Vec<_>>(), show_bytes(&frames.concat()), show_bytes(&data)));
+                    t3x(rep, "C13", &format!("BytesCodec::decode on a buffer of {n} bytes yields frames of {:?} bytes whose concatenation {} is not the buffer {}", frames.iter().map(|f| f.len()).collect::<Vec<_>>(), show_bytes(&frames.concat()), show_bytes(&data)));
                 }
                 format!("[{}]", frames.iter().map(|f| show_bytes(f)).collect::<Vec<_>>().join(","))
             }
@@ -1746,10 +1808,10 @@ fn step_c13(ws: &[&str], s: &mut Session, rep: &mut Report) -> Option<String> {
             }
             let (rb1, wb1) = (s.read_buf(), s.write_buf());
             if rb0 != rb1 {
-                rep.t3("C13", &format!("into_map_io changed read_buf from {} to {}", show_bytes(&rb0), show_bytes(&rb1)));
+                t3x(rep, "C13", &format!("into_map_io changed read_buf from {} to {}", show_bytes(&rb0), show_bytes(&rb1)));
             }
             if wb0 != wb1 {
-                rep.t3("C14", &format!("into_map_io changed write_buf from {} to {}", show_bytes(&wb0), show_bytes(&wb1)));
+                t3x(rep, "C14", &format!("into_map_io changed write_buf from {} to {}", show_bytes(&wb0), show_bytes(&wb1)));
             }
             format!("ok {} {}", s.rd_counters(rep), s.wr_counters(rep))
         }
@@ -2351,7 +2413,7 @@ fn oracle_c14(s: &mut Session, rep: &mut Report, what: &str) {
     have.extend_from_slice(&io.staged);
     have.extend_from_slice(&wb);
     if have != s.accepted {
-        rep.t3(
+        t3x(rep, 
             "C14",
             &format!(
                 "after {what}: on the wire {} + staged in the transport {} + buffered {} != encodings of the accepted items {}",
@@ -2363,13 +2425,13 @@ fn oracle_c14(s: &mut Session, rep: &mut Report, what: &str) {
         );
     }
     if let Some(n) = io.shutdown_early {
-        rep.t3("C14", &format!("after {what}: poll_shutdown was called while {n} accepted bytes had not been written to the transport"));
+        t3x(rep, "C14", &format!("after {what}: poll_shutdown was called while {n} accepted bytes had not been written to the transport"));
     }
     if s.wake.0.load(Ordering::SeqCst) != io.wakes_requested {
-        rep.t3("C14", &format!("the transport registered {} wake-ups with the context it was given, the task's waker saw {}", io.wakes_requested, s.wake.0.load(Ordering::SeqCst)));
+        t3x(rep, "C14", &format!("the transport registered {} wake-ups with the context it was given, the task's waker saw {}", io.wakes_requested, s.wake.0.load(Ordering::SeqCst)));
     }
     if io.empty_writes > 0 {
-        rep.t3("C14", "poll_write was called with an empty buffer");
+        t3x(rep, "C14", "poll_write was called with an empty buffer");
     }
 }
 
@@ -2423,7 +2485,7 @@ fn step_c14(ws: &[&str], s: &mut Session, rep: &mut Report) -> Option<String> {
                 let res = match r {
                     Err(_) => {
                         s.dead = true;
-                        rep.t3("C14", &format!("{op} panicked"));
+                        t3x(rep, "C14", &format!("{op} panicked"));
                         return Some("panic".into());
                     }
                     Ok(Ok(())) => {
@@ -2435,7 +2497,7 @@ fn step_c14(ws: &[&str], s: &mut Session, rep: &mut Report) -> Option<String> {
                         // T3: a rejected item leaves the buffer as it was
                         let wb_after = s.write_buf();
                         if wb_after != wb_before {
-                            rep.t3("C14", &format!("{op} answered {:?} but changed write_buf from {} to {}", e.kind(), show_bytes(&wb_before), show_bytes(&wb_after)));
+                            t3x(rep, "C14", &format!("{op} answered {:?} but changed write_buf from {} to {}", e.kind(), show_bytes(&wb_before), show_bytes(&wb_after)));
                         }
                         format!("err:{}", kind_str(e.kind()))
                     }
@@ -2443,7 +2505,7 @@ fn step_c14(ws: &[&str], s: &mut Session, rep: &mut Report) -> Option<String> {
                 {
                     let io = s.io.0.borrow();
                     if (io.n_write, io.n_flush, io.n_shutdown) != (w0, f0, sh0) {
-                        rep.t3("C14", &format!("{op} touched the transport"));
+                        t3x(rep, "C14", &format!("{op} touched the transport"));
                     }
                 }
                 let o = format!("{res} {}", s.wr_counters(rep));
@@ -2485,7 +2547,7 @@ fn step_c14(ws: &[&str], s: &mut Session, rep: &mut Report) -> Option<String> {
             let r = match r {
                 Err(_) => {
                     s.dead = true;
-                    rep.t3("C14", &format!("{op:?} panicked or did not return (watchdog)"));
+                    t3x(rep, "C14", &format!("{op:?} panicked or did not return (watchdog)"));
                     return Some("panic".into());
                 }
                 Ok(r) => r,
@@ -2508,60 +2570,60 @@ fn step_c14(ws: &[&str], s: &mut Session, rep: &mut Report) -> Option<String> {
             match op {
                 SinkOp::Flush => {
                     if is_ok && wb_after != 0 {
-                        rep.t3("C14", &format!("poll_flush answered Ready(Ok) with {wb_after} bytes still buffered"));
+                        t3x(rep, "C14", &format!("poll_flush answered Ready(Ok) with {wb_after} bytes still buffered"));
                     }
                     if is_ok && staged != 0 {
-                        rep.t3("C14", &format!("poll_flush answered Ready(Ok) with {staged} bytes still staged in the transport: its poll_flush has not completed ({} calls of it during this poll_flush)", f1 - f0));
+                        t3x(rep, "C14", &format!("poll_flush answered Ready(Ok) with {staged} bytes still staged in the transport: its poll_flush has not completed ({} calls of it during this poll_flush)", f1 - f0));
                     }
                     if is_ok && wire != s.accepted.len() {
-                        rep.t3("C14", &format!("poll_flush answered Ready(Ok) with {wire} of the {} accepted bytes on the wire", s.accepted.len()));
+                        t3x(rep, "C14", &format!("poll_flush answered Ready(Ok) with {wire} of the {} accepted bytes on the wire", s.accepted.len()));
                     }
                 }
                 SinkOp::Close => {
                     if is_ok && wb_after != 0 {
-                        rep.t3("C14", &format!("poll_close answered Ready(Ok) with {wb_after} bytes still buffered (write_buf not flushed)"));
+                        t3x(rep, "C14", &format!("poll_close answered Ready(Ok) with {wb_after} bytes still buffered (write_buf not flushed)"));
                     }
                     if is_ok && staged != 0 {
-                        rep.t3("C14", &format!("poll_close answered Ready(Ok) with {staged} bytes still staged in the transport"));
+                        t3x(rep, "C14", &format!("poll_close answered Ready(Ok) with {staged} bytes still staged in the transport"));
                     }
                     if is_ok && wire != s.accepted.len() {
-                        rep.t3("C14", &format!("poll_close answered Ready(Ok) with {wire} of the {} accepted bytes on the wire", s.accepted.len()));
+                        t3x(rep, "C14", &format!("poll_close answered Ready(Ok) with {wire} of the {} accepted bytes on the wire", s.accepted.len()));
                     }
                     if is_ok && !shut {
-                        rep.t3("C14", "poll_close answered Ready(Ok) but the transport was not shut down");
+                        t3x(rep, "C14", "poll_close answered Ready(Ok) but the transport was not shut down");
                     }
                 }
                 SinkOp::Ready => {
                     if wb_before < HW {
                         if !is_ok || w1 != w0 || f1 != f0 || sh1 != sh0 {
-                            rep.t3("C14", &format!("poll_ready with {wb_before} < HW bytes buffered answered {res} and touched the transport ({} writes, {} flushes)", w1 - w0, f1 - f0));
+                            t3x(rep, "C14", &format!("poll_ready with {wb_before} < HW bytes buffered answered {res} and touched the transport ({} writes, {} flushes)", w1 - w0, f1 - f0));
                         }
                     } else {
                         if w1 == w0 {
-                            rep.t3("C14", &format!("poll_ready with {wb_before} >= HW bytes buffered exerted no back-pressure (no write attempted, answered {res})"));
+                            t3x(rep, "C14", &format!("poll_ready with {wb_before} >= HW bytes buffered exerted no back-pressure (no write attempted, answered {res})"));
                         }
                         if is_ok && wb_after >= HW {
-                            rep.t3("C14", &format!("poll_ready at the high-water mark answered Ready(Ok) with {wb_after} bytes still buffered, not below the mark"));
+                            t3x(rep, "C14", &format!("poll_ready at the high-water mark answered Ready(Ok) with {wb_after} bytes still buffered, not below the mark"));
                         }
                     }
                 }
             }
             if z1 > z0 && !is_write_zero {
-                rep.t3("C14", &format!("the transport accepted 0 bytes of a non-empty buffer but {op:?} answered {res}, not WriteZero"));
+                t3x(rep, "C14", &format!("the transport accepted 0 bytes of a non-empty buffer but {op:?} answered {res}, not WriteZero"));
             }
             // a Pending answer is legitimate only if the transport answered Pending (and took the waker)
             // during this call; an error of the transport is the answer of the call, and no other error
             // (but WriteZero) is invented
             if is_pending && p1 == p0 {
-                rep.t3("C14", &format!("{op:?} answered Pending although the transport did not answer Pending during the call (no wake-up registered)"));
+                t3x(rep, "C14", &format!("{op:?} answered Pending although the transport did not answer Pending during the call (no wake-up registered)"));
             }
             if let Some(k) = errs.last() {
                 if err_kind != Some(*k) {
-                    rep.t3("C14", &format!("the transport answered the error {} during {op:?} but the call answered {res}", kind_str(*k)));
+                    t3x(rep, "C14", &format!("the transport answered the error {} during {op:?} but the call answered {res}", kind_str(*k)));
                 }
             } else if let Some(k) = err_kind {
                 if !(is_write_zero && z1 > z0) {
-                    rep.t3("C14", &format!("{op:?} answered the error {} which the transport did not answer", kind_str(k)));
+                    t3x(rep, "C14", &format!("{op:?} answered the error {} which the transport did not answer", kind_str(k)));
                 }
             }
             oracle_c14(s, rep, &format!("{op:?}"));
@@ -2943,7 +3005,17 @@ fn run(a: &Args) {
     for line in in_lines(&a.input) {
         let ws: Vec<&str> = line.split_whitespace().collect();
         let real: String = match ws.as_slice() {
-            ["case", ..] => match parse_case(&ws) {
+            ["case", ..] => match {
+                PROP_OVERRIDE.with(|o| {
+                    o.set(ws.iter().skip(2).find_map(|w| match *w {
+                        "prop=C13" => Some("C13"),
+                        "prop=C14" => Some("C14"),
+                        "prop=C15" => Some("C15"),
+                        _ => None,
+                    }))
+                });
+                parse_case(&ws)
+            } {
                 Some((sel, init, rd)) => {
                     sess = Session::new(sel, init, rd);
                     "ok".into()
